@@ -140,8 +140,8 @@ def prepare(ctx, klist, depth, N, need_db):
         G["N"] = N
         G["simp_bit"] = {p: 1 << i for i, p in enumerate(R.perms_upto(SIMPLE_PATTLEN))}
         counts = [sum(G["simp"][n].values()) for n in range(4, N + 1)]
-        expect = [2, 6, 46, 338, 2926, 28146][:len(counts)]
-        if counts != expect:
+        expect = [2, 6, 46, 338, 2926, 28146][:len(counts)]     # lengths 4..9 (OEIS A111111)
+        if counts[:len(expect)] != expect:
             raise RuntimeError("reference simples: counts %r, expected %r" % (counts, expect))
         ctx.extra["reference_simples_by_length_4.."] = counts
 
@@ -276,7 +276,7 @@ def observe(entry, basis):
             env = dict(os.environ, PYTHONDONTWRITEBYTECODE="1")
             pr = subprocess.run([sys.executable, "-B", "-c", code, "simple",
                                  cli_string(basis, False)], capture_output=True, text=True,
-                                env=env, timeout=300)
+                                env=env)
             if pr.returncode != 0:
                 return "exit %d: %s" % (pr.returncode, pr.stderr[-300:])
             return parse_cli(pr.stdout)
@@ -383,9 +383,9 @@ def shard_wrappers(shard):
         if "orders" in ents:
             ents.remove("orders")
             ents += orders(len(basis))
-        if "orders2" in ents:          # reversed and one rotation
-            ents.remove("orders2")
-            ents += orders(len(basis))[-1:] + (orders(len(basis))[2:3] if len(basis) > 2 else [])
+        if "orders1" in ents:          # reversed only
+            ents.remove("orders1")
+            ents += orders(len(basis))[-1:]
         for entry in ents:
             check_entry(part, entry, basis)
             part.add(1, 0)
@@ -411,7 +411,7 @@ def shard_special_long(shard):
                                {"expected": False, "got": got,
                                 "families_avoiding_the_basis": ref_special(basis)[1]})
             n += check_schmerl_trotter(part, basis, got)
-        part.add(n, 1 if class_infinite(basis) else 0)
+        part.add(n, 1 if (class_infinite(basis) and len(basis) != 3) else 0)
         part.bump("special_finite" if exp else "special_infinite")
         out.append((basis, sp))
     return part, out
@@ -432,6 +432,15 @@ def shard_cli_subprocess(shard):
     check_entry(part, "cli_subprocess", basis)
     part.add(1, 0)
     return part
+
+
+def canon(basis):
+    """the basis as a tuple ordered by (length, lexicographic) - the order R.bases produces"""
+    return tuple(sorted(basis, key=lambda p: (len(p), p)))
+
+
+def orbit_rep(basis):
+    return canon(R.sym_class_rep(basis))
 
 
 def chunked(seq, size):
@@ -463,25 +472,27 @@ def symmetry_groups(ctx, rows, what):
 # --------------------------------------------------------------------------------------------
 
 S4_ORBITS_QUICK = [(0, 1, 2, 3), (1, 3, 0, 2)]
+S4_ORBITS_THOROUGH = [(0, 1, 2, 3), (1, 3, 0, 2), (1, 0, 3, 2), (0, 2, 1, 3)]
 
 
 def triple_pool(quick):
     pool = list(R.perms(3))
-    if quick:
-        s4 = set()
-        for p in S4_ORBITS_QUICK:
-            s4 |= R.orbit(p)
-        pool += sorted(s4)
-    else:
-        pool += R.perms(4)
-    return pool
+    s4 = set()
+    for p in (S4_ORBITS_QUICK if quick else S4_ORBITS_THOROUGH):
+        s4 |= R.orbit(p)
+    return pool + sorted(s4)
 
 
 def long_alphabet(quick):
-    """bases containing a pattern of length 5 or 6 (symmetry-closed sets)"""
+    """bases for the special-simples test alone (symmetry-closed sets, disjoint from the bases of
+    the verdict sub-check except for some three-element ones, which are not counted twice as
+    non-trivial): three- and four-element bases over S3 + S4, bases with a pattern of length 5, 6"""
     s5, s6 = R.perms(5), R.perms(6)
     short = [p for n in range(1, 5) for p in R.perms(n)]
-    out = [(p,) for p in s5] + [(p,) for p in s6]
+    s34 = R.perms(3) + R.perms(4)
+    out = list(itertools.combinations(s34, 3))
+    out += list(itertools.combinations(R.perms(4) if quick else s34, 4))
+    out += [(p,) for p in s5] + [(p,) for p in s6]
     out += [(a, b) for a in short for b in s5]
     out += list(itertools.combinations(s5, 2))
     if not quick:
@@ -496,7 +507,7 @@ def run(ctx, only=None):
         return only is None or name in only
 
     quick = ctx.quick
-    depth = 13 if quick else 16
+    depth = 13 if quick else 15
     N = 9 if quick else 10
     ctx.rule = ("one case = one (basis, way of asking) answer compared with the reference verdict "
                 "(Brignall-Ruskuc-Vatter criterion from the definitions), plus one Schmerl-Trotter "
@@ -508,7 +519,7 @@ def run(ctx, only=None):
         "Brignall-Ruskuc-Vatter: infinitely many simples <=> arbitrarily long parallel alternations, "
         "wedge simples or proper pin sequences in the class",
         "Bassino-Bouvel-Pierrot-Rossin: proper pin sequences <-> words of M, decoded geometrically",
-        "'pin sequences infinite' is concluded from a word of length D (13 quick / 16 thorough) "
+        "'pin sequences infinite' is concluded from a word of length D (13 quick / 15 thorough) "
         "avoiding the basis; the largest finite extinction length over all explored bases is "
         "measured and reported (10), the levels between it and D are empty",
         "family facts (16 wedge simples per length, 4 simple parallel alternations per even "
@@ -528,18 +539,28 @@ def run(ctx, only=None):
                 pin_horizon=depth, simples_to=N)
 
     core2 = R.bases(2, 4)
+    # three-element bases: a symmetry-closed pool taken raw (all images); thorough adds one
+    # representative of every symmetry orbit of the three-element bases over S3 + S4
     pool3 = triple_pool(quick)
     triples = list(itertools.combinations(pool3, 3))
+    reps3_all = []
+    if not quick:
+        have = set(triples)
+        reps3_all = sorted({orbit_rep(b) for b in
+                            itertools.combinations(R.perms(3) + R.perms(4), 3)} - have)
     ctx.bounds["verdict"] = {
-        "Bases(2,4)": len(core2), "three-element bases": len(triples),
-        "three-element pool": "S3 + " + ("2 symmetry orbits of S4 (0123/3210, 1302/2031)"
-                                          if quick else "all of S4"),
+        "Bases(2,4) (all images)": len(core2),
+        "three-element bases (all images)": len(triples),
+        "three-element pool": "S3 + symmetry orbits of " + ", ".join(
+            "".join(map(str, p)) for p in (S4_ORBITS_QUICK if quick else S4_ORBITS_THOROUGH)),
+        "further three-element bases over S3 + S4, one per symmetry orbit": len(reps3_all),
         "pin_horizon_D": depth, "simples_horizon_N": N}
 
     rows = []
     if want("verdict") or want("symmetry") or want("schmerl_trotter"):
         e0 = ctx.evals
-        res = ctx.pmap(shard_primary, [(c,) for c in chunked(core2, 6) + chunked(triples, 6)])
+        res = ctx.pmap(shard_primary,
+                       [(c,) for c in chunked(core2, 6) + chunked(triples + reps3_all, 6)])
         for r in res:
             rows.extend(r)
         ctx.section("verdict", bases=len(rows), evaluations=ctx.evals - e0)
@@ -550,13 +571,15 @@ def run(ctx, only=None):
             ctx.cap("pin horizon D=%d too close to the largest finite extinction length %d"
                     % (depth, finite_max))
     if want("symmetry") and rows:
+        closed = set(triples)
         symmetry_groups(ctx, [r for r in rows if len(r[0]) <= 2], "bases24")
-        symmetry_groups(ctx, [r for r in rows if len(r[0]) == 3], "triples")
+        symmetry_groups(ctx, [r for r in rows if r[0] in closed], "triples")
         ctx.section("symmetry")
     if want("entry") or want("pin"):
         e0 = ctx.evals
-        reps2 = sorted({R.sym_class_rep(b) for b in core2})
-        reps3 = sorted({R.sym_class_rep(b) for b in triples})
+        reps2 = sorted({orbit_rep(b) for b in core2})
+        reps3 = sorted({orbit_rep(b) for b in triples})
+        assert set(reps2) <= set(core2) and set(reps3) <= set(triples)
         full, med, light = WRAP_FULL + ["orders"], WRAP_MED + ["orders"], WRAP_LIGHT + ["orders"]
         if only is not None and not want("entry"):
             full = med = light = ["pin"]
@@ -566,17 +589,14 @@ def run(ctx, only=None):
         if quick:
             plan = [("orbit representatives of Bases(2,4) with patterns of length <= 3", small2, full),
                     ("orbit representatives of Bases(2,4) with a pattern of length 4", big2, med),
-                    ("orbit representatives of the three-element bases", reps3, light)]
+                    ("orbit representatives of the three-element bases (all images pool)", reps3, light)]
         else:
             rs2 = set(reps2)
-            qpool = set(triple_pool(True))
             plan = [("orbit representatives of Bases(2,4)", reps2, full),
                     ("all other members of Bases(2,4)", [b for b in core2 if b not in rs2],
-                     WRAP_LIGHT + ["strategy", "cli0", "orders"]),
-                    ("orbit representatives of the three-element bases over S3 + 0123/3210/1302/2031",
-                     [b for b in reps3 if set(b) <= qpool], light),
-                    ("orbit representatives of the other three-element bases",
-                     [b for b in reps3 if not set(b) <= qpool], WRAP_LIGHT + ["orders2"])]
+                     ["av", "strategy", "orders"]),
+                    ("orbit representatives of the three-element bases (all images pool)", reps3, light),
+                    ("the further three-element orbit representatives", reps3_all, ["av", "orders1"])]
         for _what, bs, ents in plan:
             shards += [(c, ents) for c in chunked(bs, 2)]
         ctx.pmap(shard_wrappers, shards)
@@ -594,7 +614,8 @@ def run(ctx, only=None):
         symmetry_groups(ctx, lrows, "long")
         ctx.bounds["special"] = {
             "bases": len(la),
-            "what": "all single patterns of length 5 and 6; all pairs (length<=4, length 5); all "
+            "what": "all 3-subsets of S3+S4; all 4-subsets of " + ("S4" if quick else "S3+S4") +
+                    "; all single patterns of length 5 and 6; all pairs (length<=4, length 5); all "
                     "pairs of length-5 patterns" + ("" if quick else "; all pairs (length<=5, length 6)"),
             "family member length": "2k+4 for patterns of length <= k (12, 14, 16)"}
         ctx.section("special", bases=len(la), evaluations=ctx.evals - e0)
@@ -611,6 +632,7 @@ def _prepare_single(basis, horizon, need_pin):
         if not ok:
             raise RuntimeError(msg)
         G["members"][k] = [(kind, p, F.downset(p, k)) for kind, p in members]
+    G["pin_depth"] = horizon
     if need_pin:
         e = F.pin_extinction_for_basis(basis, horizon)
         tree = F.PinTree(4)
